@@ -469,6 +469,36 @@ def build_users(defs):
         one(r"%s\(v\)\.map_err\(E::custom\)\s*$" % dec, fn_body(sm, "visit_str"), "%s serde visit_str" % f)
         one(r"if\s+deserializer\.is_human_readable\(\)\s*\{\s*deserializer\.deserialize_str\(Visitor\(Octets::visitor\(\)\)\)\s*\}\s*else\s*\{\s*Octets::deserialize_with_visitor\(", fn_body(sm, "deserialize"), "%s serde::deserialize" % f)
     defs.append(("serde_modules_use_codecs", "bool", "true"))
+    # the complete list of functions of the three modules: a new entry point (a
+    # fast path, an encode-into-builder, another alphabet) must be modelled first
+    expected = {
+        "src/utils/base64.rs": ["decode", "display", "ch", "encode_string", "encode_display", "fmt", "serialize", "deserialize",
+                                "expecting", "visit_str", "visit_borrowed_bytes", "visit_byte_buf", "new", "finalize", "push", "push_char",
+                                "default", "new", "process_char", "process_symbol", "process_tail", "from", "fmt"],
+        "src/utils/base32.rs": ["decode_hex", "display_hex", "ch", "encode_string_hex", "encode_display_hex", "fmt", "serialize", "deserialize",
+                                "expecting", "visit_str", "visit_borrowed_bytes", "visit_byte_buf", "new_hex", "finalize", "push",
+                                "octet_0", "octet_1", "octet_2", "octet_3", "octet_4", "append", "default", "new", "process_char",
+                                "process_symbol", "process_tail"],
+        "src/utils/base16.rs": ["decode", "decode_vec", "display", "encode_string", "encode_display", "fmt", "serialize", "deserialize",
+                                "expecting", "visit_str", "visit_borrowed_bytes", "visit_byte_buf", "new", "finalize", "push", "append",
+                                "default", "new", "process_symbol", "process_tail"],
+    }
+    for f, want in expected.items():
+        c = strip_comments(read(f)).split("mod test")[0]
+        got = re.findall(r"\bfn\s+([a-z_0-9]+)", c)
+        if got != want:
+            raise GenError("%s: the list of functions changed: %r (expected %r)" % (f, got, want))
+    defs.append(("codec_entry_points_as_listed", "bool", "true"))
+    # Nsec3Salt / OwnerHash serde: human readable = Display / FromStr, otherwise octets through from_octets
+    n3 = strip_comments(read("src/rdata/nsec3.rs")).split("mod test")[0]
+    for ty in ("Nsec3Salt", "OwnerHash"):
+        ser = fn_body(n3, "serialize", after="serde::Serialize for %s" % ty)
+        one(r"^\s*if\s+serializer\.is_human_readable\(\)\s*\{\s*serializer\.serialize_newtype_struct\(\s*\"%s\",\s*&format_args!\(\"\{\}\",\s*self\),?\s*\)\s*\}\s*else\s*\{\s*serializer\.serialize_newtype_struct\(\s*\"%s\",\s*&self\.0\.as_serialized_octets\(\),?\s*\)\s*\}\s*$" % (ty, ty), ser, "%s serialize" % ty)
+        de = fn_body(n3, "deserialize", after="serde::Deserialize<'de> for %s" % ty)
+        one(r"%s::from_str\(v\)\.map_err\(E::custom\)" % ty, de, "%s visit_str" % ty)
+        if len(re.findall(r"%s::from_octets\(octets\)\.map_err\(E::custom\)" % ty, de)) != 2:
+            raise GenError("%s deserialize: octets must go through from_octets" % ty)
+    defs.append(("nsec3_serde_uses_text_entry_points", "bool", "true"))
     defs.append(("encode_wrappers_are_display", "bool", "true"))
     # bounded builders: how a failing append_slice is handled
     c64 = strip_comments(read("src/utils/base64.rs")).split("mod test")[0]
